@@ -53,7 +53,7 @@ def c17_case(draw):
             "ctx_mode": draw(st.sampled_from(["all", "all", "all", "drop_one", "extra"])),
             "set_fix": draw(st.booleans()), "max_runs": draw(st.sampled_from([None, 0, None, 1, 100])),
             "yaml_dry_run": draw(st.integers(0, 4)) == 0,
-            "rs_in_file_ctx": draw(st.booleans())}
+            "rs_in_file_ctx": draw(st.booleans()), "rs_nested": draw(st.sampled_from([False, True, False]))}
 
 
 def build(case: Dict[str, Any]) -> Dict[str, Any]:
@@ -174,6 +174,12 @@ def build(case: Dict[str, Any]) -> Dict[str, Any]:
     if case["ctx_mode"] == "extra":
         ctx_args += ["--context", "unused=7"]
     cfg = clidrv.config_mapping(nodes, run_space=rs, trace={"driver": "jsonl", "output_path": "traces"})
+    if rs is not None and case.get("rs_nested"):
+        # as in the documentation's examples, the nested block spells its defaults out; command-line options still override them
+        rs.setdefault("max_runs", 1000)
+        rs.setdefault("dry_run", False)
+        # the other accepted position of the block: under `pipeline:`
+        cfg["pipeline"]["run_space"] = cfg.pop("run_space")
     if inv == "unknown_processor":
         cfg["pipeline"]["nodes"][1]["processor"] = "NoSuchProcessor"
         if case["set_fix"]:
